@@ -56,6 +56,12 @@ func execC15With(caseText string, reloc func(rec1415, int) rec1415) string {
 	for i := range recs {
 		recs[i] = reloc(recs[i], i)
 	}
+	if head[0] == "dsz" || head[0] == "adz" {
+		// the same with the timestamps counted from Go's zero instant
+		zeroBase1415 = true
+		defer func() { zeroBase1415 = false }()
+		head[0] = head[0][:2]
+	}
 	switch head[0] {
 	case "ds":
 		if len(head) != 2 {
@@ -105,7 +111,7 @@ func execTyped1415[N timeseries.Number](recs []rec1415, d int64, parse func(stri
 	}
 	ps := make([]string, len(out))
 	for i, r := range out {
-		ps[i] = fmt.Sprintf("%d:%s", r.Timestamp.UnixNano(), fmtV(r.Value))
+		ps[i] = fmt.Sprintf("%d:%s", nanos1415(r.Timestamp), fmtV(r.Value))
 	}
 	if len(ps) == 0 {
 		return "ok -"
@@ -181,6 +187,18 @@ func execFilter1415(head []string, recs []rec1415) string {
 // ---------------------------------------------------------------- generators
 
 func genC15(c *Ctx) {
+	// series that begin at (or around) the zero value of time.Time: "no record yet" must not be told by the timestamp
+	// (plain DeltaStream only: fixed alignment periods saturate more than 292 years from the epoch, see DESIGN §C observations)
+	for _, ty := range []string{"i", "f"} {
+		for _, first := range []int64{0, 1, 5000000000} {
+			var recs []string
+			for k := 0; k < 4; k++ {
+				recs = append(recs, fmt.Sprintf("%d:%s", first+int64(k)*1800e9, gridVal1415(ty, 1+k)))
+			}
+			c.Case(true, fmt.Sprintf("dsz %s | %s", ty, strings.Join(recs, ",")))
+			c.Case(true, fmt.Sprintf("dsz %s | %s", ty, strings.Join(recs[:2], ",")))
+		}
+	}
 	genAd1415(c)
 	genDs1415(c)
 	genDf1415(c)
